@@ -17,7 +17,12 @@ NUMS = ["0", "1", "255", "256", "65536", "4294967295", "4294967296", str(2 ** 63
         "18446744073709550592", "18446744073709549568", "1e300", "1e308", "1e309", "1e19", "1.8446744073709552e19", "inf", "-inf", "+inf",
         "Infinity", "NaN", "nan", "-nan", "-0", "-0.0", "-0e9", "1e-320", "-1e-320", "-1e-400", "4e-324", "-2e-324", "9" * 400,
         "0." + "0" * 400 + "1", "1" + "0" * 400 + "e-400", "1e99999999999999999999", "1e-99999999999999999999", "-1", "+5", "1.", ".5", ".",
-        "", " ", "1 ", "0x10", "1_0", "12.345", "0.0005", "4194303.999999999", "4194304.000000001", "9007199254740993"]
+        "", " ", "1 ", "0x10", "1_0", "12.345", "0.0005", "4194303.999999999", "4194304.000000001", "9007199254740993",
+        # seconds at the edge of u64 with fractions that round up into the next second, and long fractions elsewhere
+        "18446744073709551615.9999999995", "18446744073709551615.999999999", "18446744073709551615.9999999994", "18446744073709551615.5",
+        "18446744073709551615.0", "18446744073709551614.9999999999", "18446744073709551615." + "9" * 30, "0.9999999995", "0.99999999949",
+        "1.0000000005", "4294967295.9999999999", "4294967295.9999999995", "9223372036854775807.9999999999", "0." + "9" * 40, "1." + "0" * 40,
+        "00000000000000000000001.5", "1.5e0", "1.5E0", "15e-1", "18446744073709551615e0", "1.8446744073709551615e19"]
 WORDS = ["play", "pause", "stop", "oneshot", "off", "track", "album", "auto", "abc", "a=b", "=", "==", "a=", "=b", "1:2", "3:", ":4",
          "1-2", "0-", "-5", "0.5-", "1.5-18446744073709551616", "-", "18446744073709551616-", "nan-nan", "é", "日本", "x" * 300,
          "2024-01-02T03:04:05Z", "9999-99-99T99:99:99Z", "2024-01-02T03:04:05+25:00", "2024-02-30T00:00:00Z", "2024-01-02T03:04:60Z",
